@@ -72,6 +72,10 @@ pub trait H {
     fn touch(&mut self) -> u64 {
         7
     }
+    /// the same through a pinned receiver (DelegateToDefaultImpl for Pin<&mut Unimock>)
+    fn touch_pin(self: std::pin::Pin<&mut Self>) -> u64 {
+        7
+    }
     /// a borrowed return configured with returns(): the value lives in the shared call pattern
     fn bor(&self) -> &ValA;
 }
@@ -113,6 +117,7 @@ enum Op {
     Live,
     Help(u8, u64),
     Touch,
+    TouchPin,
     Nvid,
 }
 
@@ -124,6 +129,7 @@ fn parse_op(s: &str) -> Op {
         "l" => Op::Live,
         "h" => Op::Help(p[1].parse().unwrap(), p[2].parse().unwrap()),
         "t" => Op::Touch,
+        "p" => Op::TouchPin,
         "n" => Op::Nvid,
         _ => panic!("bad op {s}"),
     }
@@ -155,7 +161,7 @@ fn shared_phase(u: &Unimock, ops: &[Op], out: &mut impl Write) -> usize {
                 writeln!(out, "[{}] live={}", show_all(&held), live()).unwrap();
             }
             Op::Live => writeln!(out, "[{}] live={}", show_all(&held), live()).unwrap(),
-            Op::Mut(..) | Op::Touch | Op::Nvid => break,
+            Op::Mut(..) | Op::Touch | Op::TouchPin | Op::Nvid => break,
         }
         k += 1;
     }
@@ -188,6 +194,10 @@ fn session(u: &mut Unimock, ops: &[Op], out: &mut impl Write) {
                 k += 1;
             } else if let Op::Touch = ops[k] {
                 let r = H::touch(u);
+                writeln!(out, "[touch{r}] live={}", live()).unwrap();
+                k += 1;
+            } else if let Op::TouchPin = ops[k] {
+                let r = H::touch_pin(std::pin::Pin::new(&mut *u));
                 writeln!(out, "[touch{r}] live={}", live()).unwrap();
                 k += 1;
             } else if let Op::Nvid = ops[k] {
